@@ -68,6 +68,9 @@ def classify(pp_list, excl, cfg, p, glob_only, model, root):
         firstgs = isinstance(pp.segs[0], str)
         if firstgs and cfg.get('matchbase') and all(isinstance(s_, str) for s_ in pp.segs) and not pp.trail:
             ids.add('K17')
+        if not glob_only and W.strip_sep(p).endswith('\n') and not p.endswith('/') and (
+                cfg.get('matchbase') or ((cfg.get('globstar') or cfg.get('globstarlong')) and any(isinstance(s_, str) for s_ in pp.segs))):
+            ids.add('K33')
         if glob_only and not FC.follows_links(cfg):
             comps = [c_ for c_ in W.strip_sep(p).split('/') if c_ != '']
             if comps and '..' not in comps:
